@@ -140,6 +140,7 @@ def run_harness(cases, timeout=120, shards=NPROC):
     """returns {id: {result, msg, stdout(bytes), stderr(bytes), pulled, stdin_opened, budget_hit}};
     a shard that hangs or dies is re-run case by case to pin the culprit (result 'hang' / 'abort')."""
     tmp = os.path.join(BUILD, 'tmp'); os.makedirs(tmp, exist_ok=True)
+    timeout = max(timeout, 60 + len(cases) // max(1, shards) // 20)
     out = {}
     def launch(cs, k):
         d = os.path.join(tmp, 'h%d_%d' % (os.getpid(), k)); os.makedirs(d, exist_ok=True)
@@ -196,6 +197,7 @@ def run_harness(cases, timeout=120, shards=NPROC):
     return out
 
 def run_model(cases, timeout=120, shards=NPROC):
+    timeout = max(timeout, 60 + len(cases) // max(1, shards) // 10)      # ~0.1 s per case per shard at worst
     out = {}
     groups = _shards(cases, shards)
     procs = []
